@@ -30,6 +30,7 @@
 #include <assert.h>
 #include <unistd.h>
 
+#define DRV_NO_LINE_WATCHDOG 1
 #include "drv_common.h"
 #include "events.h"
 #include "network.h"
